@@ -69,6 +69,9 @@ class C19(Prop):
         for name, xs in seqs:
             for d in (0, 1):
                 lines.append(f"fir {d} " + " ".join(map(str, xs))); meta.append(("fir", d, name, xs))
+                if len(xs) <= 700:
+                    for k in ((40, 70) if d == 0 else (70, 200)):
+                        lines.append(f"firs {d} {k} " + " ".join(map(str, xs))); meta.append(("firs", d, f"{name}/2^{k}", xs, k))
                 if 999999 not in xs:
                     lines.append(f"iir {d} " + " ".join(map(str, xs))); meta.append(("iir", d, name, xs))
                     # the filter is linear: the same sequence at small amplitudes x / 2^k (a state flushed or clamped at some absolute
@@ -83,7 +86,7 @@ class C19(Prop):
             model = ctx.run_model(lines)
             for ln, a, b, mt in zip(lines, impl, model, meta):
                 op, d, name, xs = mt[:4]
-                scale = 2.0 ** (12 - mt[4]) if op == "iirs" else 1.0     # amplitude relative to the unit-scale streams
+                scale = 2.0 ** (12 - mt[4]) if op in ("iirs", "firs") else 1.0     # amplitude relative to the unit-scale streams
                 ctx.stat(f"{op}:{'double' if d else 'float'}:{name}")
                 if a == b:
                     ctx.stat("bit-exact")
